@@ -172,7 +172,9 @@ impl Gatekeeper {
                 let user_info = UserInfo::new(
                     self.subscription_slots,
                     block_count,
-                    block_count + self.subscription_duration,
+                    block_count
+                        .checked_add(self.subscription_duration)
+                        .unwrap_or(u32::MAX),
                 );
                 self.dbm
                     .lock()
@@ -254,7 +256,9 @@ impl Gatekeeper {
             .iter()
             // NOTE: Ideally there won't be a user with `block_height > subscription_expiry + expiry_delta`, but
             // this might happen if we skip a couple of block connections due to a force update.
-            .filter(|(_, info)| block_height >= info.subscription_expiry + self.expiry_delta)
+            .filter(|(_, info)| {
+                block_height as u64 >= info.subscription_expiry as u64 + self.expiry_delta as u64
+            })
             .map(|(user_id, _)| *user_id)
             .collect()
     }
